@@ -172,14 +172,14 @@ Theorem ro_vacuum_nm sc corder before : ro_session sc -> no_mut (sql_vacuum cfg 
 Proof.
   intros Hs. unfold sql_vacuum, ro_session in *. destruct (sc_tb sc) as [tb|]; [|constructor].
   destruct Hs as (A & B & C).
-  apply no_mut_bind; [|intros tb'; constructor].
+  apply no_mut_bind; [|intros [tb' derr]; constructor].
   unfold tbl_vacuum. rewrite (vacuum_rows_ro _ _ B).
   apply no_mut_bind_ret.
   - apply commit_ro_nm. cbn. exact B.
   - intros [h3 r] Hret. apply commit_ro_returns in Hret; [|cbn; exact B]. subst h3.
     destruct r; [|constructor].
     apply no_mut_bind; [|intros; constructor].
-    apply delete_historic_ro_nm. cbn. exact B.
+    apply no_mut_catch. apply delete_historic_ro_nm. cbn. exact B.
 Qed.
 
 End RoSession.
